@@ -408,7 +408,7 @@ func runParent(prop, tier string) int {
 			fmt.Printf("UNREPRODUCED property=%s signature=%s (seen in-process, not in a fresh process; not reported)\n", prop, s)
 			continue
 		}
-		if strings.HasPrefix(s, "race-detector/") && repro > 0 {
+		if (strings.HasPrefix(s, "race-detector/") || p.Nondet) && repro > 0 {
 			repro = tries // a report of the race detector is believed when it shows up again at least once
 		}
 		if repro != tries {
